@@ -76,7 +76,9 @@ func (r *Executor) Do(release *v1beta1.BatchRelease) (reconcile.Result, *v1beta1
 	newStatus := getInitializedStatus(&release.Status)
 	workloadController, err := r.getReleaseController(release, newStatus)
 	if err != nil || workloadController == nil {
-		return reconcile.Result{}, nil, nil
+		// nothing can be done for this release (e.g. unsupported workload type); the caller
+		// dereferences the returned status, so it must not be nil
+		return reconcile.Result{}, newStatus, nil
 	}
 
 	stop, result, err := r.syncStatusBeforeExecuting(release, newStatus, workloadController)
